@@ -694,6 +694,15 @@ func injectFaults(r *rand.Rand, d *doc) []fault {
 		nl := append(append(append([]docLine(nil), d.lines[:pos]...), docLine{text: long, kind: 1}), d.lines[pos:]...)
 		out = append(out, fault{kind: "very-long-line", text: join(nl), root: rebuild(nl)})
 	}
+	// (i) an XML declaration in front of the document that names another encoding or XML version:
+	// the container parser refuses those (not with a syntax error) — an error, or the whole document
+	for _, decl := range []string{`<?xml version="1.0" encoding="GBK"?>`, `<?xml version="1.0" encoding="ISO-8859-1"?>`, `<?xml version="1.1"?>`, `<?xml version="1.0" encoding="UTF-8"?>`, `<?xml version="1.0" encoding="utf-16"?>`} {
+		if r.Intn(10) != 0 {
+			continue
+		}
+		nl := append([]docLine{{text: decl, kind: 0}}, d.lines...)
+		out = append(out, fault{kind: "xml-declaration", text: join(nl), root: rebuild(d.lines)})
+	}
 	// (h) a domain name that is not a valid element name
 	if len(opens) > 0 {
 		pos := opens[r.Intn(len(opens))] + 1
